@@ -30,6 +30,7 @@ created *inside* the directory asked for; the clock answers a `u128`.  Everythin
 unconstrained. -/
 def Answer : Call → Ret → Prop
   | .mkTemp dir, .path p => ∃ n, p = dir ++ [n]
+  | .mkTempLink dir _, .path p => ∃ n, p = dir ++ [n]
   | .readDir dir, .entries es => ∀ e ∈ es, dir <+: e.1
   | .now, .nat t => t ≤ timeMax
   | _, _ => True
@@ -45,6 +46,11 @@ theorem FS.below_prefix (fs : FS) (p q : Path) (h : q ∈ fs.below p) : p <+: q 
 theorem answer_exec (env : Env) (fs : FS) (c : Call) : Answer c (exec env fs c).2 := by
   cases c with
   | mkTemp dir =>
+    simp only [exec]
+    split
+    · exact ⟨_, rfl⟩
+    · trivial
+  | mkTempLink dir t =>
     simp only [exec]
     split
     · exact ⟨_, rfl⟩
